@@ -83,7 +83,22 @@ Precedes(d, s1, s2) == s2[1] \in ReachFrom(d, TargetsOf(d, s1), {})
 (* v may be written by two causally unordered branches (static over-approximation) *)
 ConcurrentlyWritten(d, v) ==
   \E s1, s2 \in PubSites(d, v) : s1 # s2 /\ ~Precedes(d, s1, s2) /\ ~Precedes(d, s2, s1)
-DepVar(e) == IF e.k \in {"ctx", "inc"} THEN {e.v} ELSE {}
+DepVar(e) == IF e.k \in {"ctx", "inc", "lt", "ge"} THEN {e.v} ELSE {}
+AllVars(d) == {d.vars[i][1] : i \in 1..Len(d.vars)} \cup
+              UNION {UNION {{d.tasks[t].next[i].pub[k][1] : k \in 1..Len(d.tasks[t].next[i].pub)} :
+                              i \in 1..Len(d.tasks[t].next)} : t \in TaskNames(d)}
+(* variables whose value may legitimately depend on arrival order: written by concurrent branches, *)
+(* or published from an expression over such a variable (closure)                                *)
+RECURSIVE TaintClosure(_, _)
+TaintClosure(d, T) ==
+  LET more == {w \in AllVars(d) : \E t \in TaskNames(d) : \E i \in 1..Len(d.tasks[t].next) :
+                  \E k \in 1..Len(d.tasks[t].next[i].pub) :
+                     d.tasks[t].next[i].pub[k][1] = w /\ DepVar(d.tasks[t].next[i].pub[k][2]) \cap T # {}}
+  IN IF more \subseteq T THEN T ELSE TaintClosure(d, T \cup more)
+Tainted(d) == TaintClosure(d, {v \in AllVars(d) : ConcurrentlyWritten(d, v)})
+(* a transition condition (or retry condition) reads an order-sensitive variable *)
+ControlTainted(d) == \E t \in TaskNames(d) : \E i \in 1..Len(d.tasks[t].next) :
+                        DepVar(d.tasks[t].next[i].when) \cap Tainted(d) # {}
 
 (* --- denotation of the abstract expression language ------------------------------------- *)
 EvalCond(c, st, res, ctx) ==                         \* "T" | "F" | "E"
